@@ -25,6 +25,13 @@ def step (line : String) : String :=
   | ["msg", k, n] =>
     if (k = "shmsg" ∨ k = "ctrlreq" ∨ k = "ctrlresp" ∨ k = "shopen" ∨ k = "fupmeta" ∨ k = "fdownmeta")
         ∧ n.toNat?.isSome then "ok big=0 parse=ok" else "bad-op"
+  | "nf" :: p :: sizes =>
+    -- a tunnel delivers what was written whether or not a FIN follows
+    if (p = "exit" ∨ p = "fwd" ∨ p = "mesh" ∨ p = "shin") ∧ !sizes.isEmpty then
+      match sizes.mapM (·.toNat?) with
+      | some ks => s!"ok delivered {ks.sum}"
+      | none => "bad-op"
+    else "bad-op"
   | ["stall", n, ms] =>
     match n.toNat?, ms.toNat? with
     | some n, some _ => s!"ok frames={(chunkLens exit.bufSize n).length} rx=equal"
@@ -64,6 +71,11 @@ def spec (line : String) (implOut : String) : String :=
       else if p ≠ "ok" then "fail wire-not-frames"
       else "ok"
     | _, _ => "fail inconsistent-report"
+  | "nf" :: _ :: _ =>
+    if implOut.startsWith "ok delivered" then (if implOut == step line then "ok" else "fail delivered-count-differs")
+    else if implOut.startsWith "ok pending" then "fail undelivered-without-fin"
+    else if implOut.startsWith "ok differ" then "fail bytes-differ-without-fin"
+    else "fail " ++ (implOut.replace " " "-")
   | ["stall", _, _] =>
     match field "rx" toks with
     | some rx =>
